@@ -122,7 +122,7 @@ func (e *env) takePanics() []string {
 	return p
 }
 
-func newEnv(connModes []string) (*env, error) {
+func newEnv(connModes []string, bare ...bool) (*env, error) {
 	e := &env{connModes: connModes, answered: map[string]bool{}, idle: make(chan struct{}, 1)}
 	e.ctx, e.cancel = context.WithCancel(context.Background())
 	e.ibb = &ibb.Handler{}
@@ -131,6 +131,11 @@ func newEnv(connModes []string) (*env, error) {
 	e.muc = &muc.Client{
 		HandleInvite:       func(muc.Invitation) {},
 		HandleUserPresence: func(stanza.Presence, muc.Item) {},
+	}
+	if len(bare) > 0 && bare[0] {
+		// the zero values: the optional callbacks are not set
+		e.rcpt = &receipts.Handler{}
+		e.muc = &muc.Client{}
 	}
 	e.mux = mux.New(nsClient,
 		ping.Handle(),
